@@ -68,5 +68,19 @@ func c06Cases(level int) []SCase {
 			}
 		}
 	}
+	// two schemas that map to the same Go type name and differ only in a string constraint: each keeps its own
+	for i, pair := range [][2]J{{{"minLength": 2}, {"minLength": 4}}, {{"maxLength": 3}, {"maxLength": 5}}, {{"pattern": "^a"}, {"pattern": "^b"}}, {{"minLength": 2}, {}}} {
+		mk := func(c J) J {
+			p := J{"type": "string"}
+			for k, v := range c {
+				p[k] = v
+			}
+			return J{"type": "object", "properties": J{"s": p}, "required": A{"s"}}
+		}
+		out = append(out, SCase{ID: fmt.Sprintf("C06/same-type-name/inline-vs-def/%d", i), Cfg: baseCfg(), Axes: map[string]string{"pos": "same-type-name", "leaf": fmt.Sprint(i)},
+			Schema: J{"type": "object", "properties": J{"a": J{"type": "object", "properties": J{"b": mk(pair[0])}}, "viaRef": J{"$ref": "#/$defs/SAB"}}, "$defs": J{"SAB": mk(pair[1])}}})
+		out = append(out, SCase{ID: fmt.Sprintf("C06/same-type-name/two-defs/%d", i), Cfg: baseCfg(), Axes: map[string]string{"pos": "same-type-name", "leaf": fmt.Sprint(i)},
+			Schema: J{"type": "object", "properties": J{"x": J{"$ref": "#/$defs/limits"}, "y": J{"$ref": "#/$defs/Limits"}}, "$defs": J{"limits": mk(pair[0]), "Limits": mk(pair[1])}}})
+	}
 	return out
 }
